@@ -257,6 +257,33 @@ func genD1(g *Gen) {
 			g.Emit("len", "D1", "frommont", h, "0")
 		}
 	}
+	// canonicity, byte position by byte position: all-ones except ONE byte (every index 0..31), for first bytes at and
+	// around 0xed and both values of the sign bit — the succeed-fast test must look at every one of the 32 bytes
+	for j := 0; j < 32; j++ {
+		for _, b0 := range []byte{0xec, 0xed, 0xff} {
+			for _, b31 := range []byte{0x7f, 0xff} {
+				for _, v := range []byte{0xfe, 0x00} {
+					b := make([]byte, 32)
+					for k := range b {
+						b[k] = 0xff
+					}
+					b[0], b[31] = b0, b31
+					if j == 31 {
+						b[j] = v &^ 0x80 | (b31 & 0x80)
+						if v == 0xfe {
+							b[j] = 0x7e | (b31 & 0x80)
+						}
+					} else if j > 0 {
+						b[j] = v
+					}
+					g.Emit("canonbyte", "D1", "iscanon", hx(b))
+					if j%5 == 0 {
+						g.Emit("canonbyte", "D1", "decode", hx(b))
+					}
+				}
+			}
+		}
+	}
 	g.Emit("len", "D1", "unmarshal", "nil")
 	g.Emit("len", "D1", "cunmarshal", "nil")
 	g.Emit("len", "D1", "decode", "nil")
